@@ -14,7 +14,7 @@ CLAIM = {
     "text": "Lean theorems over ALL documents and filter contexts, for the evaluator model: the keys selector yields exactly an object's member names in order and nothing "
             "for other values; the fake root evaluates as the root query on the one-element array holding the document; the current-key identifier is the candidate's member "
             "name or index; the filter-context identifier reads the caller's mapping in every nested evaluation (the context is an invariant of the evaluation environment); "
-            "`in`/`contains` are converse and test array membership, substring and member name; `=~` is a full match with the literal's flags; `<>` equals `!=`; comparison "
+            "`in`/`contains` are converse and test array membership (with the equality of `==`: membership_uses_filter_equality; an operand that selects nothing is a member of nothing: absent_never_member), substring and member name; the type functions typeof/type and isinstance/is are inside the evaluator model (typeof_spec, isinstance_accepts_typeof); `=~` is a full match with the literal's flags; `<>` equals `!=`; comparison "
             "with undefined equals the negated existence test. Alias spellings (and/or/not, nil/none/Null/None/Nil, True/False, missing, missing root, bare names) are lexer/"
             "parser facts: they are tied by compiling both spellings and comparing the implementation's compiled ASTs and results; the model is tied to the implementation "
             "with filter contexts on every case. Character level: alias_and/or/not/nil/true/false/undefined - each pair of spellings is read by the lexer model as the same parser token at any word boundary (also directly before a parenthesis).",
